@@ -6,3 +6,11 @@ import BB.Props.C02
 #print axioms BB.replay_limit
 #print axioms BB.replay_blanks
 #print axioms BB.replay_no_apps
+#print axioms BB.replaySym_undfnd
+#print axioms BB.replaySym_spnout
+#print axioms BB.replaySym_blankRec
+#print axioms BB.replaySym_limit
+#print axioms BB.replaySym_blanks
+#print axioms BB.replaySym_no_apps
+#print axioms BB.Sym.validate_inf_sound
+#print axioms BB.replaySym_limit_inf
